@@ -1351,14 +1351,17 @@ def _model_to_sbml(
         _sbase_annotations(gp, cobra_gene.annotation)
         _sbase_notes_dict(gp, cobra_gene.notes)
 
-    # Objective
-    objective: "libsbml.Objective" = model_fbc.createObjective()
-    objective.setId("obj")
-    objective.setType(SHORT_LONG_DIRECTION[cobra_model.objective.direction])
-    model_fbc.setActiveObjectiveId("obj")
+    # Objective (an objective without flux objectives is not valid SBML, so an
+    # empty objective is not written at all)
+    reaction_coefficients = linear_reaction_coefficients(cobra_model)
+    objective: Optional["libsbml.Objective"] = None
+    if any(coef != 0 for coef in reaction_coefficients.values()):
+        objective = model_fbc.createObjective()
+        objective.setId("obj")
+        objective.setType(SHORT_LONG_DIRECTION[cobra_model.objective.direction])
+        model_fbc.setActiveObjectiveId("obj")
 
     # Reactions
-    reaction_coefficients = linear_reaction_coefficients(cobra_model)
     for cobra_reaction in cobra_model.reactions:
         rid = cobra_reaction.id
         if f_replace and F_REACTION_REV in f_replace:
@@ -1432,7 +1435,7 @@ def _model_to_sbml(
             _check(gpa.setAssociation(gpr_new, True, False), "set gpr: " + gpr_new)
 
         # objective coefficients
-        if reaction_coefficients.get(cobra_reaction, 0) != 0:
+        if objective is not None and reaction_coefficients.get(cobra_reaction, 0) != 0:
             flux_obj = (
                 objective.createFluxObjective()
             )  # noqa: E501 type: libsbml.FluxObjective
